@@ -283,7 +283,38 @@ def t_text_mode(E, stmt):
 
 _FORMS = ['int', 'slice', 'open', 'openlo', 'openhi']
 
+def t_paint_tile_bounded(E):
+    """Bounded end-to-end stand-in for the data side of a store (the proof tasks look at indices only): a
+    tiled PAINT inside VIEW SCREEN keeps every pixel row at its width and changes nothing outside the viewport."""
+    from pcbasic.basic import Session
+    import io
+    left = E.int('left', 41, 90)
+    width = E.int('width', 6, 60)
+    top = E.int('top', 31, 60)
+    tile = bytes([E.int('tile%d' % i, 1, 255) for i in range(E.int('tilelen', 1, 4))])
+    out = io.BytesIO()
+    with Session(output_streams=out, input_streams=None, video='ega') as s:
+        s.execute('SCREEN 9: VIEW SCREEN (40,30)-(200,120)')
+        before = [list(r) for r in s.get_pixels()]
+        s.set_variable('T$', tile)
+        s.execute('LINE (%d,%d)-(%d,%d),15,B: PAINT (%d,%d),T$,15' % (left, top, left + width, top + 20, left + 2, top + 2))
+        try:
+            after = [list(r) for r in s.get_pixels()]
+        except AssertionError:
+            # the pixel buffer itself reports rows of different lengths
+            E.prove(False, 'every pixel row keeps its width')
+            return
+    txt = out.getvalue()
+    E.prove(b'rror' not in txt, 'PAINT succeeds')
+    E.prove(len(after) == len(before) and all(len(a) == len(b) for a, b in zip(after, before)), 'every pixel row keeps its width')
+    outside_same = all(after[y][x] == before[y][x] for y in range(len(before)) for x in range(len(before[y]))
+                       if not (40 <= x <= 200 and 30 <= y <= 120)) if len(after) == len(before) and all(len(a) == len(b) for a, b in zip(after, before)) else False
+    E.prove(outside_same, 'no pixel outside the viewport changes')
+
+
 TASKS = [
+    Task('tiled PAINT inside a viewport (bounded)', t_paint_tile_bounded, bounded=True, samples=(16, 200),
+         scope='16 (quick) / 200 (thorough) sampled boxes and tile patterns in SCREEN 9 through a real Session'),
     Task('GraphicsViewPort view_ok', t_view_ok, cases=[{'how': h} for h in ('init', 'unset', 'set')]),
     Task('Graphics.view_ (range checks before set)', t_view_statement),
     Task('GraphicsViewPort.__setitem__', t_setitem,
